@@ -121,9 +121,14 @@ def generate(rng, tier):
                 spec = ["blockkfold", 2, rng.random() < 0.5, seed, [rng.randint(2, 3), rng.randint(2, 3)]]
             else:
                 spec = ["blockshuffle", rng.randint(1, 3), 0.5, seed, [rng.randint(2, 3), rng.randint(2, 3)]]
-            est = "moment" if rng.random() < 0.8 else "trend"
-            if est == "trend":
+            est = rng.choice(["moment"] * 6 + ["trend", "trend", "chain", "vector"])
+            if est in ("trend", "chain"):
                 data, weights = data[:1], (weights[:1] if weights else None)
+            if est == "vector":
+                if len(data) < 2:
+                    data = [data[0], [v * 0.5 - 1.0 for v in data[0]][::-1]]
+                    weights = None if weights is None else [weights[0], weights[0][::-1]]
+                data, weights = data[:2], (weights[:2] if weights else None)
             cs.append(mk_cv(coords, shape2d, data, weights, spec, rng.choice(SCORERS), est, "cv-" + spec[0] + "-" + est))
         elif u < 0.93:
             bs = None if rng.random() < 0.5 else [rng.randint(2, 3), rng.randint(2, 3)]
@@ -148,19 +153,50 @@ def _arrays(coords, shape2d, data, weights, key=""):
     return cs, d_arg, w_arg
 
 
+def mk_est(est):
+    if est == "moment":
+        return MomentGridder(tag=2)       # fit lingers 2 ms after writing its state
+    if est == "trend":
+        return vd.Trend(1)
+    if est == "chain":
+        return vd.Chain([("t0", vd.Trend(0)), ("t1", vd.Trend(1))])
+    if est == "vector":
+        return vd.Vector([vd.Trend(1), vd.Trend(0)])
+    raise ValueError(est)
+
+
+REAL = ("trend", "chain", "vector")
+
+
+def _deep_state(obj, depth=0):
+    """Fingerprint of an estimator INCLUDING the estimators nested in it (Chain steps, Vector components)."""
+    if isinstance(obj, np.ndarray):
+        return ("arr", obj.shape, obj.dtype.str, obj.tobytes())
+    if isinstance(obj, (list, tuple)):
+        return [_deep_state(x, depth + 1) for x in obj]
+    if hasattr(obj, "get_params") and hasattr(obj, "__dict__") and depth < 6:
+        return (type(obj).__name__, id(obj), sorted((k, repr(_deep_state(v, depth + 1))) for k, v in obj.__dict__.items()))
+    return repr(obj)
+
+
 def impl(case):
     a = case["args"]
     fn = case["fn"]
     if fn == "cv_score":
         coords, shape2d, data, weights, cvspec, scoring, est = a
         cs, d_arg, w_arg = _arrays(coords, shape2d, data, weights, case["op"][-60:])
-        estimator = MomentGridder(tag=2) if est == "moment" else vd.Trend(1)     # fit lingers 2 ms after writing its state
-        before = dict(estimator.__dict__)
+        estimator = mk_est(est)
+        prefit = est in REAL and (len(coords[0]) % 2 == 0)
+        q = (np.asarray(cs[0]).ravel()[:4] + 0.125, np.asarray(cs[1]).ravel()[:4] - 0.25)
+        if prefit:       # the user's own fitted model must survive cross-validation untouched
+            estimator.fit(cs, d_arg, w_arg)
+            pred0 = _deep_state(estimator.predict(q))
+        before = _deep_state(estimator)
 
         def run():
             serial = vd.cross_val_score(estimator, cs, d_arg, weights=w_arg, cv=make_cv(cvspec), scoring=scoring)
-            if dict(estimator.__dict__) != before:
-                raise RuntimeError("estimator modified")
+            if _deep_state(estimator) != before:
+                raise RuntimeError("estimator (or an estimator nested in it) modified")
             serial = [float(v) for v in serial]
             delayed = vd.cross_val_score(estimator, cs, d_arg, weights=w_arg, cv=make_cv(cvspec), scoring=scoring, delayed=True)
             runs = [dask.compute(*delayed, scheduler="synchronous"), dask.compute(*delayed, scheduler="threads"),
@@ -169,13 +205,15 @@ def impl(case):
                 r = [float(v) for v in r]
                 if len(r) != len(serial) or any(not (x == y or (x != x and y != y)) for x, y in zip(r, serial)):
                     raise RuntimeError(f"delayed result differs from serial: {r} vs {serial}")
-            if dict(estimator.__dict__) != before:
-                raise RuntimeError("estimator modified")
+            if _deep_state(estimator) != before:
+                raise RuntimeError("estimator (or an estimator nested in it) modified")
+            if prefit and _deep_state(estimator.predict(q)) != pred0:
+                raise RuntimeError("the fitted estimator passed in predicts differently after cross-validation")
             return serial
         r = C.call(run)
         if C.is_err(r):
             return r
-        if est == "trend":
+        if est in REAL:
             return ["trend", r]
         return [None if v != v else v for v in r]
     if fn == "tts":
@@ -221,7 +259,7 @@ def _splinecv(a):
 
 def compare(case, io, mo):
     fn = case["fn"]
-    if fn == "splinecv" or (fn == "cv_score" and case["args"][6] == "trend"):
+    if fn == "splinecv" or (fn == "cv_score" and case["args"][6] in REAL):
         return "ok"      # no model counterpart: decided by the oracle on the implementation
     if fn == "cv_score":
         e = C.err_compare(io, mo)
@@ -257,7 +295,7 @@ def oracle(case, io):
         coords, shape2d, data, weights, cvspec, scoring, est = a
         if C.is_err(io):
             return "cross_val_score failed, was schedule dependent, or modified the estimator: " + io[1]
-        if est != "trend":
+        if est not in REAL:
             return None
         scores = io[1]
         splits = splits_of(cvspec, coords[0], coords[1])
@@ -266,13 +304,17 @@ def oracle(case, io):
         from sklearn.metrics import mean_absolute_error, mean_squared_error, r2_score
         for (tr, te), got in zip(splits, scores):
             sel = lambda arr, idx: np.array(arr)[idx]  # noqa: E731
-            t = vd.Trend(1).fit((sel(coords[0], tr), sel(coords[1], tr)), sel(data[0], tr), None if weights is None else sel(weights[0], tr))
+            ncomp = 2 if est == "vector" else 1
+            dtr = tuple(sel(data[c], tr) for c in range(ncomp))
+            wtr = None if weights is None else tuple(sel(weights[c], tr) for c in range(ncomp))
+            t = mk_est(est).fit((sel(coords[0], tr), sel(coords[1], tr)), dtr if ncomp > 1 else dtr[0],
+                                None if wtr is None else (wtr if ncomp > 1 else wtr[0]))
             pred = t.predict((sel(coords[0], te), sel(coords[1], te)))
-            y = sel(data[0], te)
-            w = None if weights is None else sel(weights[0], te)
-            exp = {None: lambda: r2_score(y, pred, sample_weight=w), "r2": lambda: r2_score(y, pred, sample_weight=w),
-                   "neg_mean_squared_error": lambda: -mean_squared_error(y, pred, sample_weight=w),
-                   "neg_mean_absolute_error": lambda: -mean_absolute_error(y, pred, sample_weight=w)}[scoring]()
+            pred = pred if ncomp > 1 else (pred,)
+            metric = {None: lambda y, p, w: r2_score(y, p, sample_weight=w), "r2": lambda y, p, w: r2_score(y, p, sample_weight=w),
+                      "neg_mean_squared_error": lambda y, p, w: -mean_squared_error(y, p, sample_weight=w),
+                      "neg_mean_absolute_error": lambda y, p, w: -mean_absolute_error(y, p, sample_weight=w)}[scoring]
+            exp = float(np.mean([metric(sel(data[c], te), pred[c], None if weights is None else sel(weights[c], te)) for c in range(ncomp)]))
             if not (abs(got - exp) <= 1e-7 * max(1.0, abs(exp)) or (got != got and exp != exp)):
                 return f"score {got} is not the {scoring or 'r2'} of a fresh clone fitted on the training rows and evaluated on the test rows ({exp})"
         return None
@@ -312,7 +354,7 @@ def nontrivial(case, io):
     if C.is_err(io):
         return False
     if case["fn"] == "cv_score":
-        v = io[1] if case["args"][6] == "trend" else io
+        v = io[1] if case["args"][6] in REAL else io
         return len(v) >= 2
     return True
 
